@@ -103,8 +103,10 @@ def do_replay(path, quiet=False):
     real = None
     if spec.real_replay is not None and not body.get("custom_replay"):
         try:
+            from . import vos
+            vos.reset()
             real, rtext = spec.real_replay(body["harness"], body["args"], failure)
-        except Exception as e:  # noqa
+        except BaseException as e:  # noqa
             real, rtext = None, "real-OS replay crashed: %r" % (e,)
         print("REAL-OS-REPLAY: %s %s" % ({True: "reproduced", False: "NOT reproduced", None: "not available"}[real], rtext))
         if real is False:
